@@ -13,6 +13,7 @@ pub mod c02;
 pub mod c03;
 pub mod c04;
 pub mod c05;
+pub mod c06;
 pub mod c09;
 pub mod c10;
 pub mod c11;
@@ -31,6 +32,7 @@ pub fn create(a: &Args) -> Option<Box<dyn Monitor>> {
         "C03" => Some(Box::new(c03::C03::new(a))),
         "C04" => Some(Box::new(c04::C04::new(a))),
         "C05" => Some(Box::new(c05::C05::new(a))),
+        "C06" => Some(Box::new(c06::C06::new(a))),
         "C09" => Some(Box::new(c09::C09::new(a))),
         "C10" => Some(Box::new(c10::C10::new(a))),
         "C11" => Some(Box::new(c11::C11::new(a))),
